@@ -1,8 +1,36 @@
 // seq_sp.cpp — sequential differential driver for cocls::suspend_point (C06, C20 threshold).
 // engines: sp0 (ops issued from ordinary code), sp1 (ops issued by a coroutine running under the ready queue)
 // Objects are suspend_point<void> or suspend_point<MV>; MV is a class type whose moves are observable.
-#define VH_DEFINE_NEW
 #include "common.h"
+
+// global allocation functions: the same accounting as common.h's VH_DEFINE_NEW set, plus an on-demand failure of the
+// next operator new[] (the handle array of a suspend point is the only new[] in the measured windows)
+static bool g_fail_next_arr = false;
+void *operator new(std::size_t sz) {
+    if (vh::t_count) vh::g_news.fetch_add(1, std::memory_order_relaxed);
+    void *p = std::malloc(sz ? sz : 1);
+    if (!p) throw std::bad_alloc();
+    return p;
+}
+void *operator new[](std::size_t sz) {
+    if (g_fail_next_arr) {
+        g_fail_next_arr = false;
+        throw std::bad_alloc();
+    }
+    if (vh::t_count) vh::g_news_arr.fetch_add(1, std::memory_order_relaxed);
+    return ::operator new(sz);
+}
+void operator delete(void *p) noexcept {
+    if (!p) return;
+    if (vh::t_count) vh::g_deletes.fetch_add(1, std::memory_order_relaxed);
+    std::free(p);
+}
+void operator delete[](void *p) noexcept {
+    if (p && vh::t_count) vh::g_deletes_arr.fetch_add(1, std::memory_order_relaxed);
+    ::operator delete(p);
+}
+void operator delete(void *p, std::size_t) noexcept { ::operator delete(p); }
+void operator delete[](void *p, std::size_t) noexcept { ::operator delete[](p); }
 #define protected public
 #define private public
 #include <cocls/suspend_point.h>
@@ -153,6 +181,54 @@ static bool exec_plain(Ctx &c, const std::vector<long> &op) {
             vh::alloc_mark m;
             (*s.base()) << std::move(h);
             emit(c, 0, s.size(), s.value(), m);
+            return true;
+        }
+        case 19: {  // AddFail o h: the allocation this add may need throws
+            if (!arity(3) || op[2] <= 0) { reject(c); return true; }
+            auto &s = c.slot(op[1]);
+            if (!s.live()) { reject(c); return true; }
+            auto h = c.handle_for(op[2]);
+            vh::alloc_mark m;
+            long st = 0;
+            g_fail_next_arr = true;
+            try {
+                (*s.base()) << std::move(h);
+            } catch (const std::bad_alloc &) {
+                st = 2;   // the caller still owns h; it is simply not handed in
+            }
+            g_fail_next_arr = false;
+            emit(c, st, s.size(), s.value(), m);
+            return true;
+        }
+        case 20: {  // CreateThrow o t v h...: fn readies the handles, then throws
+            if (op.size() < 4 || !valid_slot(op[1]) || (op[2] != 0 && op[2] != 1)) { reject(c); return true; }
+            for (size_t i = 4; i < op.size(); i++)
+                if (op[i] <= 0) { reject(c); return true; }
+            auto &s = c.slot(op[1]);
+            if (s.live()) { reject(c); return true; }
+            std::vector<std::coroutine_handle<>> hs;
+            for (size_t i = 4; i < op.size(); i++) hs.push_back(c.handle_for(op[i]));
+            struct Boom {};
+            vh::alloc_mark m;
+            try {
+                if (op[2] == 1) {
+                    long v = op[3];
+                    auto r = coro_queue::create_suspend_point([&]() -> MV {
+                        for (auto h : hs) coro_queue::resume(h);
+                        throw Boom();
+                        return MV(v);
+                    });
+                    (void)r;
+                } else {
+                    auto r = coro_queue::create_suspend_point([&] {
+                        for (auto h : hs) coro_queue::resume(h);
+                        throw Boom();
+                    });
+                    (void)r;
+                }
+            } catch (const Boom &) {
+            }
+            emit(c, 0, 0, 0, m);
             return true;
         }
         case 3:     // Merge a << move(b)
